@@ -375,6 +375,9 @@ type Terminal struct {
 	sigstop            bool
 	startChan          chan fitpad
 	killChan           chan bool
+	previewMutex       sync.Mutex
+	previewKill        func() // Kills the running preview command
+	previewQuit        bool
 	serverInputChan    chan []*action
 	keyChan            chan tui.Event
 	eventChan          chan tui.Event
@@ -4479,8 +4482,18 @@ func (t *Terminal) Loop() error {
 					reader := bufio.NewReader(out)
 					eofChan := make(chan bool)
 					finishChan := make(chan bool, 1)
-					err := cmd.Start()
-					if err == nil {
+					// The command should not outlive fzf; see the end of the render loop
+					t.previewMutex.Lock()
+					var err error
+					started := false
+					if !t.previewQuit {
+						if err = cmd.Start(); err == nil {
+							started = true
+							t.previewKill = func() { util.KillCommand(cmd) }
+						}
+					}
+					t.previewMutex.Unlock()
+					if started {
 						reapChan := make(chan bool)
 						lineChan := make(chan eachLine)
 						// Goroutine 1 reads process output
@@ -4590,15 +4603,21 @@ func (t *Terminal) Loop() error {
 							reapChan <- true
 						}(version)
 
-						<-eofChan          // Goroutine 1 finished
-						cmd.Wait()         // NOTE: We should not call Wait before EOF
+						<-eofChan  // Goroutine 1 finished
+						cmd.Wait() // NOTE: We should not call Wait before EOF
+						t.previewMutex.Lock()
+						t.previewKill = nil
+						t.previewMutex.Unlock()
 						finishChan <- true // Tell Goroutine 3 to stop
 						<-reapChan         // Goroutine 2 and 3 finished
 						<-reapChan
 						removeFiles(tempFiles)
 					} else {
-						// Failed to start the command. Report the error immediately.
-						t.reqBox.Set(reqPreviewDisplay, previewResult{version, []string{err.Error()}, 0, ""})
+						if err != nil {
+							// Failed to start the command. Report the error immediately.
+							t.reqBox.Set(reqPreviewDisplay, previewResult{version, []string{err.Error()}, 0, ""})
+						}
+						removeFiles(tempFiles)
 					}
 				} else {
 					t.reqBox.Set(reqPreviewDisplay, previewResult{version, nil, 0, ""})
@@ -4791,6 +4810,15 @@ func (t *Terminal) Loop() error {
 				t.uiMutex.Unlock()
 			})
 		}
+
+		// Kill the running preview command before the process is allowed to
+		// exit. killPreview() only asks another goroutine to do so.
+		t.previewMutex.Lock()
+		t.previewQuit = true
+		if t.previewKill != nil {
+			t.previewKill()
+		}
+		t.previewMutex.Unlock()
 
 		t.eventBox.Set(EvtQuit, quitSignal{code, nil})
 		t.running.Set(false)
